@@ -117,8 +117,9 @@ def run_check(prop: str, tier: str, replay: str | None = None) -> int:
         for reason in mod.finalize(agg, tier) or []:
             agg['inconclusive'].append(reason)
     if getattr(mod, 'BUILDER_DEFAULTS', False) and not replay and \
-            not agg['counters'].get('monitor.builder_default_comparisons'):
-        agg['inconclusive'].append('builder-default monitor compared no call')
+            not agg['counters'].get('monitor.builder_calls_rewritten'):
+        agg['inconclusive'].append('no builder call was rewritten (defaults '
+                                   'left out / other argument form)')
 
     # ---- classify violations against the committed known-findings file
     open_findings = known.load_open()
